@@ -661,10 +661,12 @@ static inline char *safec_fmt_find_n(const char *fmt, int is_scanf) {
             continue;
         }
         start = p - 1;
+        /* flags, '*', width, precision, positional argument and length modifiers (incl. glibc's I, ', Z, q and
+           C23's wN), in any order: everything that can stand between '%' and the conversion character */
         while (*p == '-' || *p == '+' || *p == ' ' || *p == '#' || *p == '0' || *p == '*' || *p == '\'' ||
-               *p == '.' || *p == '$' || *p == 'I' || (*p >= '1' && *p <= '9') || (is_scanf && *p == 'm'))
-            p++;
-        while (*p == 'h' || *p == 'l' || *p == 'L' || *p == 'q' || *p == 'j' || *p == 'z' || *p == 't')
+               *p == '.' || *p == '$' || *p == 'I' || (*p >= '1' && *p <= '9') || (is_scanf && *p == 'm') ||
+               *p == 'h' || *p == 'l' || *p == 'L' || *p == 'q' || *p == 'j' || *p == 'z' || *p == 't' ||
+               *p == 'Z' || *p == 'w')
             p++;
         if (*p == 'n')
             return (char *)start;
@@ -694,10 +696,12 @@ static inline wchar_t *safec_wfmt_find_n(const wchar_t *fmt, int is_scanf) {
             continue;
         }
         start = p - 1;
+        /* flags, '*', width, precision, positional argument and length modifiers (incl. glibc's I, ', Z, q and
+           C23's wN), in any order: everything that can stand between '%' and the conversion character */
         while (*p == L'-' || *p == L'+' || *p == L' ' || *p == L'#' || *p == L'0' || *p == L'*' || *p == L'\'' ||
-               *p == L'.' || *p == L'$' || *p == L'I' || (*p >= L'1' && *p <= L'9') || (is_scanf && *p == L'm'))
-            p++;
-        while (*p == L'h' || *p == L'l' || *p == L'L' || *p == L'q' || *p == L'j' || *p == L'z' || *p == L't')
+               *p == L'.' || *p == L'$' || *p == L'I' || (*p >= L'1' && *p <= L'9') || (is_scanf && *p == L'm') ||
+               *p == L'h' || *p == L'l' || *p == L'L' || *p == L'q' || *p == L'j' || *p == L'z' || *p == L't' ||
+               *p == L'Z' || *p == L'w')
             p++;
         if (*p == L'n')
             return (wchar_t *)start;
